@@ -275,7 +275,16 @@ func Main() {
 		} else if env.A > 0 && alloc > env.A*float64(inBytes)+env.B {
 			impl = fmt.Sprintf("RESOURCE:alloc=%.0f-for-%d-input-bytes:", alloc, inBytes) + impl
 		} else if ms := float64(el.Microseconds()) / 1000; env.MaxMs > 0 && ms > env.MaxMs {
-			impl = fmt.Sprintf("RESOURCE:ms=%.0f-for-%d-input-bytes:", ms, inBytes) + impl
+			// wall time on a shared machine: run the case once more before calling it slow (the better of two runs counts)
+			t1 := time.Now()
+			deadline.Store(t1.Add(caseTimeout).UnixNano())
+			resetBufs()
+			again := runCase(h, args)
+			deadline.Store(0)
+			ms2 := float64(time.Since(t1).Microseconds()) / 1000
+			if ms2 > env.MaxMs && again == impl {
+				impl = fmt.Sprintf("RESOURCE:ms=%.0f/%.0f-for-%d-input-bytes:", ms, ms2, inBytes) + impl
+			}
 		}
 
 		st.Cases++
